@@ -21,6 +21,7 @@ def main():
     ap = argparse.ArgumentParser()
     ap.add_argument('id'); ap.add_argument('src'); ap.add_argument('--property'); ap.add_argument('--ctest-runs', type=int, default=2)
     ap.add_argument('--needs', default=''); ap.add_argument('--demo-runs', type=int, default=2)
+    ap.add_argument('--at', default='HEAD', help='commit the change was written against (a later fix: commit rewrote the code it edits)')
     a = ap.parse_args()
     pid = a.property or a.id[:3]
     wt = os.path.join(SCR, a.id); pr = os.path.join(SCR, a.id + '_pristine')
@@ -31,9 +32,9 @@ def main():
     meta = {'id': a.id, 'property': pid, 'ran': []}
     ok = True
     try:
-        rc, out = sh('git -C /repo worktree add --detach %s HEAD' % wt)
+        rc, out = sh('git -C /repo worktree add --detach %s %s' % (wt, a.at))
         assert rc == 0, out
-        head = sh('git -C /repo rev-parse --short HEAD')[1].strip()
+        head = sh('git -C /repo rev-parse --short %s' % a.at)[1].strip()
         meta['repo_head'] = head
         rc, out = sh('git apply %s' % os.path.join(os.path.abspath(a.src), 'patch.diff'), cwd=wt)
         meta['ran'].append({'step': 'git apply patch.diff on HEAD %s' % head, 'rc': rc})
@@ -59,7 +60,7 @@ def main():
             if f.endswith(('.h', '.py', '.txt', '.rua', '.cua', '.mtx')) and os.path.isfile(os.path.join(a.src, f)):
                 shutil.copy(os.path.join(a.src, f), dd)
         os.makedirs(pr)
-        rc, out = sh('git -C /repo archive HEAD | tar -x -C %s' % pr)
+        rc, out = sh('git -C /repo archive %s | tar -x -C %s' % (a.at, pr))
         fails = []; cleans = []
         for k in range(a.demo_runs):
             rc, out = sh('sh run_demo.sh %s' % wt, cwd=dd, timeout=3000)
@@ -89,6 +90,9 @@ def main():
     mp = os.path.join(out, 'meta.json')
     if os.path.exists(mp):
         old = json.load(open(mp))
+    if a.at != 'HEAD':
+        files = sorted(set(re.findall(r'^\+\+\+ b/(\S+)', open(os.path.join(a.src, 'patch.diff')).read(), re.M)))
+        meta['base_checkout'] = {'commit': head, 'paths': files, 'why': 'the change edits code that a later fix: commit rewrote; it applies to these files as of this commit'}
     meta['needs_to_manifest'] = a.needs or old.get('needs_to_manifest', '')
     for k in ('detected_by', 'missed_by', 'history'):
         if k in old: meta[k] = old[k]
